@@ -80,6 +80,18 @@ class Program(object):
         for im in self.impls:
             for ti, ii in im["items"].items():
                 self._impl_ix.setdefault(ti, []).append((im, ii))
+        # impls of library traits are known through the impl methods whose bodies were dumped
+        seen = set((ti, ii) for ti, lst in self._impl_ix.items() for (_, ii) in lst)
+        for fn in self.fns.values():
+            a = fn.assoc
+            if fn.local or not a or a.get("container") != "impl" or not a.get("trait_item") or not a.get("trait"):
+                continue
+            if (a["trait_item"], fn.path) in seen:
+                continue
+            targs = tuple(_freeze_arg(None, None, x, None) if False else x for x in ())
+            im = {"trait": a["trait"]["path"], "trait_args": tuple(fn.T[x] if not isinstance(x, dict) else ("const", x["const"]) for x in a["trait"]["args"]),
+                  "self_ty": a["self_ty"], "items": {a["trait_item"]: fn.path}, "crate": "(library)"}
+            self._impl_ix.setdefault(a["trait_item"], []).append((im, fn.path))
 
     def _add(self, raw):
         cname = raw["crate"]
